@@ -82,16 +82,16 @@ func c15alphabet(tier string) []c15op {
 type level map[string][]byte
 
 type openIter struct {
-	it       kvIter
-	level    int
-	asc      bool
+	it         kvIter
+	level      int
+	asc        bool
 	start, end []byte
-	lastKey  []byte
+	lastKey    []byte
 	// weakly-consistent iterator oracle: for every key, the set of values it had during the
 	// iterator's lifetime ("" key absent represented by nil entry in hist[k] with absent=true)
 	everPresent map[string][][]byte
 	everAbsent  map[string]bool
-	done     bool
+	done        bool
 }
 
 type c15machine struct {
@@ -409,7 +409,7 @@ func (m *c15machine) finalCheck() {
 
 type c15stats struct {
 	programs, ops, skipped int64
-	outcomes              sync.Map
+	outcomes               sync.Map
 }
 
 // runC15Program executes one program; returns the failure description ("" if none).
